@@ -63,3 +63,15 @@ Section Errors.
       rewrite H0 in Hy. exact Hy.
   Qed.
 End Errors.
+
+(* the general transfer: on every conforming file whose content carries Count and Info on exactly one address each, the
+   byte-level reader is the archive-level reader applied to the content - so EVERY archive-level theorem (extraction, record
+   without a name, range leaving the data region, offset overflow, totality) speaks about files *)
+Theorem arc_file_reads_content m f c cc i :
+  conforms LE f c -> label_addrs (content_archive LE c) COUNT = [cc] -> label_addrs (content_archive LE c) INFO = [i] ->
+  arc_from_bytes m f = arc_from_archive m (content_archive LE c).
+Proof.
+  intros Hc Hcount Hinfo. destruct (parsed_obs_equal LE f c Hc) as (a & Hp & He & Ho).
+  unfold arc_from_bytes. rewrite Hp. cbn [bind].
+  exact (arc_from_archive_obs_equal m (content_archive LE c) a cc i Ho He Hcount Hinfo).
+Qed.
